@@ -437,23 +437,29 @@ def freshInit (P : Params) (v : Variant) (c : Core) (w : World) : Core :=
     swStart := w.clock,
     entryPoint := if v.resetEntryPoint then none else c.entryPoint }
 
-/-- everything after the block loop -/
-def afterLoop (P : Params) (cb : Nat → CbRet) (stack : Nat) (s : Sc) (it : It) (o : LoopOut) : CallOut :=
+/-- everything after the block loop (:554-626), messages of the block loop not included -/
+def afterLoop0 (P : Params) (cb : Nat → CbRet) (stack : Nat) (s : Sc) (it : It) (o : LoopOut) : CallOut :=
   let it1 : It := { it with rest := o.rest, sched := o.sched, lastError := o.lastError }
   if o.result ≠ .success then
-    ⟨{ s with core := exitClean o.core o.result }, it1, o.world, o.msgs, o.result⟩
+    ⟨{ s with core := exitClean o.core o.result }, it1, o.world, [], o.result⟩
   else
     let fs := it.fileSize
     let x := exec P cb s.set fs stack o.core it1 o.world
     if x.result ≠ .success then
-      ⟨{ s with core := exitClean x.core x.result, fileSize := fs }, x.it, x.world, o.msgs ++ x.msgs, x.result⟩
+      ⟨{ s with core := exitClean x.core x.result, fileSize := fs }, x.it, x.world, x.msgs, x.result⟩
     else
       match report cb s.set x.core (enum P.rules) x.world with
       | (w, ms, some e) =>
-        ⟨{ s with core := exitClean x.core e, fileSize := fs }, x.it, w, o.msgs ++ x.msgs ++ ms, e⟩
+        ⟨{ s with core := exitClean x.core e, fileSize := fs }, x.it, w, x.msgs ++ ms, e⟩
       | (w, ms, none) =>
         let (_, w') := call cb w
-        ⟨{ s with core := exitClean x.core .success, fileSize := fs }, x.it, w', o.msgs ++ x.msgs ++ ms ++ [.scanFinished], .success⟩
+        ⟨{ s with core := exitClean x.core .success, fileSize := fs }, x.it, w', x.msgs ++ ms ++ [.scanFinished], .success⟩
+
+def CallOut.pre (ms : List Msg) (r : CallOut) : CallOut := { r with msgs := ms ++ r.msgs }
+
+/-- block loop, then everything after it -/
+def afterLoop (P : Params) (cb : Nat → CbRet) (stack : Nat) (s : Sc) (it : It) (o : LoopOut) : CallOut :=
+  (afterLoop0 P cb stack s it o).pre o.msgs
 
 /-- `yr_scanner_scan_mem_blocks(scanner, iterator)` -/
 def scanCall (P : Params) (v : Variant) (cb : Nat → CbRet) (stack : Nat) (s : Sc) (it : It) (w : World) : CallOut :=
